@@ -11,6 +11,14 @@
 // enclosing connect-param / sasl keys in alternating case).  The server decodes the body with mapstructure, which
 // matches keys case-insensitively: every spelling is the same request with the same secrets (the event field "stored"
 // lists the canaries that reached the task record, i.e. that the decoder accepted).
+// Shape (step fields "shape", "shaped"): the VALUES of the credential fields listed in "shaped" are the canary in an odd
+// shape - leading / trailing blank, a tab inside, trailing tab / line feed, a byte that is not valid UTF-8.  The request is
+// sent as a hand-encoded JSON body (encodeRaw: control characters escaped as JSON demands, every other byte as it is, so an
+// invalid byte reaches the server's decoder - goccy/go-json keeps it).  The oracle looks for every way such a value can
+// show up: the raw bytes, the canary's recognisable CORE (the longest run of the canary that the shape leaves intact:
+// the whole canary for the edge shapes), the base64 forms of both, and the renderings of the whole value through Go %q /
+// JSON string encoders / U+FFFD replacement, nested up to three times (a %q-quoted value inside an error text inside a JSON
+// log line).  A credential printed with one byte escaped is still the credential.
 // Fault 90: every store call of the step fails (the store is down for the whole step); 1..20: the k-th call fails.
 package main
 
@@ -24,6 +32,7 @@ import (
 	"net/http/httptest"
 	"os"
 	"sort"
+	"strconv"
 	"strings"
 	"syscall"
 
@@ -59,28 +68,181 @@ func needles(v string) []string {
 	return res
 }
 
-var needleTab = func() map[string][]string {
-	m := map[string][]string{}
+// ---------------------------------------------------------------- shapes of a credential value
+const coreLen = 13 // "tab_in": the tab sits after the first 13 characters of the canary
+
+func shapeValue(v, shape string) string {
+	switch shape {
+	case "", "plain":
+		return v
+	case "lead_sp":
+		return " " + v
+	case "trail_sp":
+		return v + " "
+	case "tab_in":
+		return v[:coreLen] + "\t" + v[coreLen:]
+	case "trail_tab":
+		return v + "\t"
+	case "trail_lf":
+		return v + "\n"
+	case "bad_utf8":
+		return "\xff" + v
+	}
+	panic("shape " + shape)
+}
+
+// coreOf: the longest run of the canary that the shape leaves intact
+func coreOf(v, shape string) string {
+	if shape == "tab_in" {
+		return v[:coreLen]
+	}
+	return v
+}
+
+// rawJSONString: s as a JSON string literal without the quotes; '"', '\\' and control characters escaped, every other
+// byte (also one that is not valid UTF-8) as it is - what goccy/go-json writes for a string, and what a client can send
+func rawJSONString(s string) string {
+	var b strings.Builder
+	for i := 0; i < len(s); i++ {
+		switch c := s[i]; {
+		case c == '"' || c == '\\':
+			b.WriteByte('\\')
+			b.WriteByte(c)
+		case c == '\n':
+			b.WriteString(`\n`)
+		case c == '\t':
+			b.WriteString(`\t`)
+		case c == '\r':
+			b.WriteString(`\r`)
+		case c < 0x20:
+			fmt.Fprintf(&b, `\u%04x`, c)
+		default:
+			b.WriteByte(c)
+		}
+	}
+	return b.String()
+}
+
+// renderings of a value by the string encoders a server has at hand (one level)
+func renderOnce(x string) []string {
+	q := strconv.Quote(x) // %q
+	qa := strconv.QuoteToASCII(x)
+	j, _ := json.Marshal(x) // encoding/json, zap's JSON encoder: invalid bytes become \ufffd
+	res := []string{q[1 : len(q)-1], qa[1 : len(qa)-1], string(j[1 : len(j)-1]), rawJSONString(x), strings.ToValidUTF8(x, "\uFFFD")}
+	u := strings.NewReplacer("\t", `\u0009`, "\n", `\u000a`, "\xff", `\u00ff`).Replace(x)
+	res = append(res, u, strings.NewReplacer("\t", `\x09`, "\n", `\x0a`).Replace(x))
+	return res
+}
+
+func renderings(v string) []string {
+	seen := map[string]bool{v: true}
+	level := []string{v}
+	for depth := 0; depth < 3; depth++ {
+		var next []string
+		for _, x := range level {
+			for _, r := range renderOnce(x) {
+				if !seen[r] {
+					seen[r] = true
+					next = append(next, r)
+				}
+			}
+		}
+		level = next
+	}
+	res := make([]string, 0, len(seen))
+	for r := range seen {
+		res = append(res, r)
+	}
+	sort.Strings(res)
+	return res
+}
+
+type needle struct{ s, how string }
+
+// needleSet: what to look for, per canary name.  It starts with the plain canaries and grows with every shaped value a
+// plan sends (a later step may print what an earlier create brought in)
+type needleSet struct {
+	tab  map[string][]needle
+	seen map[string]bool
+}
+
+func (ns *needleSet) add(name, s, how string) {
+	if len(s) < 12 || ns.seen[name+"\x00"+s] {
+		return
+	}
+	ns.seen[name+"\x00"+s] = true
+	ns.tab[name] = append(ns.tab[name], needle{s, how})
+}
+
+func (ns *needleSet) addValue(name, v, shape string) {
+	plain := shape == "" || shape == "plain"
+	if plain {
+		ns.add(name, v, "canary")
+	}
+	ns.add(name, v, "raw")
+	for _, n := range needles(v)[1:] {
+		ns.add(name, n, "base64")
+	}
+	if plain {
+		return
+	}
+	core := coreOf(canaries[name], shape)
+	ns.add(name, core, "core")
+	for _, n := range needles(core)[1:] {
+		ns.add(name, n, "base64-core")
+	}
+	for _, r := range renderings(v) {
+		ns.add(name, r, "escaped")
+	}
+}
+
+func newNeedleSet() *needleSet {
+	ns := &needleSet{tab: map[string][]needle{}, seen: map[string]bool{}}
 	for k, v := range canaries {
-		m[k] = needles(v)
+		ns.addValue(k, v, "plain")
 	}
 	// the derived token "user:password" travels base64-encoded in the gRPC authorization header
-	m["password"] = append(m["password"], needles(canaries["user"] + ":" + canaries["password"])[1:]...)
-	return m
-}()
+	for _, n := range needles(canaries["user"] + ":" + canaries["password"])[1:] {
+		ns.add("password", n, "base64")
+	}
+	return ns
+}
 
-func scan(text []byte) []string {
-	found := []string{}
-	for name, ns := range needleTab {
-		for _, n := range ns {
-			if bytes.Contains(text, []byte(n)) {
+// shaped: the value of credential field name in a request of this shape, registered with the needles
+func (ns *needleSet) shaped(name, shape string, fields map[string]bool) string {
+	if !fields[name] {
+		return canaries[name]
+	}
+	v := shapeValue(canaries[name], shape)
+	ns.addValue(name, v, shape)
+	if name == "password" {
+		for _, n := range needles(canaries["user"] + ":" + v)[1:] {
+			ns.add("password", n, "base64")
+		}
+	}
+	return v
+}
+
+// scanHow: the canaries found in text and, for the reader of a replay file, how the first match of each was found
+func (ns *needleSet) scanHow(text []byte) ([]string, string) {
+	found, how := []string{}, []string{}
+	for name, list := range ns.tab {
+		for _, n := range list {
+			if bytes.Contains(text, []byte(n.s)) {
 				found = append(found, name)
+				how = append(how, name+":"+n.how)
 				break
 			}
 		}
 	}
 	sort.Strings(found)
-	return found
+	sort.Strings(how)
+	return found, strings.Join(how, " ")
+}
+
+func (ns *needleSet) scan(text []byte) []string {
+	f, _ := ns.scanHow(text)
+	return f
 }
 
 // ---------------------------------------------------------------- log capture (fd 1 and fd 2 of this process)
@@ -140,6 +302,8 @@ type world struct {
 	bad     string
 	kind    string
 	ncreate int
+	ns      *needleSet
+	sent    map[string]string // odd-shaped credential values of the last create, by canary name
 }
 
 func (w *world) serve() {
@@ -149,8 +313,49 @@ func (w *world) serve() {
 	w.srv = httptest.NewServer(w.env.Handler())
 }
 
+// encodeRaw: v as JSON with sorted keys; strings through rawJSONString (bytes that are not valid UTF-8 stay as they are -
+// encoding/json would replace them before the request leaves the client)
+func encodeRaw(b *bytes.Buffer, v interface{}) {
+	switch x := v.(type) {
+	case M:
+		keys := make([]string, 0, len(x))
+		for k := range x {
+			keys = append(keys, k)
+		}
+		sort.Strings(keys)
+		b.WriteByte('{')
+		for i, k := range keys {
+			if i > 0 {
+				b.WriteByte(',')
+			}
+			b.WriteString(`"` + rawJSONString(k) + `":`)
+			encodeRaw(b, x[k])
+		}
+		b.WriteByte('}')
+	case []interface{}:
+		b.WriteByte('[')
+		for i, e := range x {
+			if i > 0 {
+				b.WriteByte(',')
+			}
+			encodeRaw(b, e)
+		}
+		b.WriteByte(']')
+	case string:
+		b.WriteString(`"` + rawJSONString(x) + `"`)
+	default:
+		j, err := json.Marshal(x)
+		if err != nil {
+			panic(err)
+		}
+		b.Write(j)
+	}
+}
+
 func (w *world) post(v interface{}) (int, []byte, bool) {
-	b, _ := json.Marshal(v)
+	var buf bytes.Buffer
+	encodeRaw(&buf, v)
+	b := buf.Bytes()
 	resp, err := w.client.Post(w.srv.URL+"/cdc", "application/json", bytes.NewReader(b))
 	if err != nil {
 		return -1, []byte(err.Error()), true
@@ -230,7 +435,15 @@ func respell(v interface{}, spell string) interface{} {
 	return v
 }
 
-func (w *world) createReq(kind, spell string, fault int) M {
+func (w *world) createReq(kind, spell, shape string, fields map[string]bool, fault int) M {
+	w.sent = map[string]string{}
+	val := func(name string) string {
+		v := w.ns.shaped(name, shape, fields)
+		if fields[name] {
+			w.sent[name] = v
+		}
+		return v
+	}
 	id := taskID
 	coll := "coll_sec"
 	if fault == 96 { // a second task asking for the same collection: rejected as duplicate (if the first exists)
@@ -244,12 +457,12 @@ func (w *world) createReq(kind, spell string, fault int) M {
 	}
 	switch kind {
 	case "token":
-		data["milvus_connect_param"] = M{"uri": uri, "token": canaries["token"], "connect_timeout": timeout}
+		data["milvus_connect_param"] = M{"uri": uri, "token": val("token"), "connect_timeout": timeout}
 	case "userpass":
-		data["milvus_connect_param"] = M{"uri": uri, "username": canaries["user"], "password": canaries["password"], "connect_timeout": timeout}
+		data["milvus_connect_param"] = M{"uri": uri, "username": canaries["user"], "password": val("password"), "connect_timeout": timeout}
 	case "kafka", "kafka_off":
 		data["kafka_connect_param"] = M{"address": "127.0.0.1:1", "topic": "cdc-topic", "enable_sasl": kind == "kafka",
-			"sasl": M{"username": canaries["sasl_user"], "password": canaries["sasl_pass"], "mechanisms": "PLAIN", "security_protocol": "SASL_PLAINTEXT"}}
+			"sasl": M{"username": val("sasl_user"), "password": val("sasl_pass"), "mechanisms": "PLAIN", "security_protocol": "SASL_PLAINTEXT"}}
 	default:
 		panic("kind " + kind)
 	}
@@ -259,11 +472,11 @@ func (w *world) createReq(kind, spell string, fault int) M {
 	if fault == 98 { // a credential field of the wrong JSON type
 		switch kind {
 		case "token":
-			data["milvus_connect_param"].(M)["token"] = []interface{}{canaries["token"]}
+			data["milvus_connect_param"].(M)["token"] = []interface{}{val("token")}
 		case "userpass":
-			data["milvus_connect_param"].(M)["password"] = []interface{}{canaries["password"]}
+			data["milvus_connect_param"].(M)["password"] = []interface{}{val("password")}
 		case "kafka", "kafka_off":
-			data["kafka_connect_param"].(M)["sasl"].(M)["password"] = []interface{}{canaries["sasl_pass"]}
+			data["kafka_connect_param"].(M)["sasl"].(M)["password"] = []interface{}{val("sasl_pass")}
 		}
 	}
 	return M{"request_type": "create", "request_data": respell(data, spell)}
@@ -271,21 +484,59 @@ func (w *world) createReq(kind, spell string, fault int) M {
 
 // taskState: state of the task record and the canaries its stored record holds (they have to be there: the task
 // needs them to connect; it shows that the request's spelling of the credential keys was accepted)
-func (w *world) taskState() (string, []string) {
+// The third result: the credential fields whose stored value is exactly the (odd-shaped) value the last create sent
+// (the harness store keeps records in encoding/json, which turns a byte that is not UTF-8 into U+FFFD): the shape
+// survived the request decoding and the validation, i.e. the input dimension is not vacuous.
+func (w *world) taskState() (string, []string, []string) {
 	ts, _ := w.env.Store.Dump()
 	for _, t := range ts {
 		if t.Info.TaskID == taskID {
-			return t.Info.State.String(), scan([]byte(t.Raw))
+			got := map[string]string{"token": t.Info.MilvusConnectParam.Token, "password": t.Info.MilvusConnectParam.Password,
+				"sasl_user": t.Info.KafkaConnectParam.SASL.Username, "sasl_pass": t.Info.KafkaConnectParam.SASL.Password}
+			exact := []string{}
+			for name, v := range w.sent {
+				if got[name] == strings.ToValidUTF8(v, "\uFFFD") {
+					exact = append(exact, name)
+				}
+			}
+			sort.Strings(exact)
+			return t.Info.State.String(), w.ns.scan([]byte(t.Raw)), exact
 		}
 	}
-	return "none", []string{}
+	return "none", []string{}, []string{}
 }
 
 var logs *capture
 
+var secretsOf = map[string][]string{"token": {"token"}, "userpass": {"password"}, "kafka": {"sasl_pass", "sasl_user"}, "kafka_off": {"sasl_pass", "sasl_user"}}
+
+// shapeOf: the shape of the credential values of a step and the fields that have it (default: every credential of the kind)
+func shapeOf(st map[string]interface{}, kind string) (string, map[string]bool, []string) {
+	shape := hx.S(st, "shape")
+	if shape == "" {
+		shape = "plain"
+	}
+	fields, list := map[string]bool{}, []string{}
+	if shape == "plain" {
+		return shape, fields, list
+	}
+	if l, ok := st["shaped"].([]interface{}); ok {
+		for _, x := range l {
+			list = append(list, x.(string))
+		}
+	} else {
+		list = append(list, secretsOf[kind]...)
+	}
+	sort.Strings(list)
+	for _, n := range list {
+		fields[n] = true
+	}
+	return shape, fields, list
+}
+
 func run(p *hx.Plan) []hx.Event {
 	good, bad := srvenv.MilvusURIs()
-	w := &world{env: srvenv.New(100), good: good, bad: bad}
+	w := &world{env: srvenv.New(100), good: good, bad: bad, ns: newNeedleSet()}
 	tr := &http.Transport{DisableKeepAlives: true}
 	w.client = &http.Client{Transport: tr}
 	w.serve()
@@ -306,7 +557,8 @@ func run(p *hx.Plan) []hx.Event {
 		if spell == "" {
 			spell = "canon"
 		}
-		ev := hx.Event{"op": op, "i": i + 1, "n": len(p.Steps), "fault": fault, "kind": kind, "spell": spell}
+		shape, fields, shapedList := shapeOf(st, kind)
+		ev := hx.Event{"op": op, "i": i + 1, "n": len(p.Steps), "fault": fault, "kind": kind, "spell": spell, "shape": shape, "shaped": shapedList}
 		w.env.Store.ResetCalls()
 		w.env.FailEntity(0)
 		switch {
@@ -323,7 +575,7 @@ func run(p *hx.Plan) []hx.Event {
 		id := M{"task_id": taskID}
 		switch op {
 		case "create":
-			code, body, broken = w.post(w.createReq(kind, spell, fault))
+			code, body, broken = w.post(w.createReq(kind, spell, shape, fields, fault))
 		case "get", "pause", "resume", "position":
 			code, body, broken = w.post(M{"request_type": op, "request_data": id})
 		case "delete":
@@ -342,15 +594,17 @@ func run(p *hx.Plan) []hx.Event {
 		w.env.Store.ResetCalls()
 		w.env.FailEntity(0)
 		logText := logs.take()
-		ev["resp_leak"] = scan(body)
-		ev["log_leak"] = scan(logText)
+		var respHow, logHow string
+		ev["resp_leak"], respHow = w.ns.scanHow(body)
+		ev["log_leak"], logHow = w.ns.scanHow(logText)
+		ev["leak_how"] = strings.TrimSpace("resp[" + respHow + "] log[" + logHow + "]")
 		ev["log_bytes"] = len(logText)
-		ev["state"], ev["stored"] = w.taskState()
+		ev["state"], ev["stored"], ev["stored_shaped"] = w.taskState()
 		// evidence for the reader of a replay file: the first leaking log line, canaries left in (it is a test string)
 		ev["log_sample"] = ""
 		if ll := ev["log_leak"].([]string); len(ll) > 1 || (len(ll) == 1 && ll[0] != "user") {
 			for _, ln := range bytes.Split(logText, []byte("\n")) {
-				if f := scan(ln); len(f) > 1 || (len(f) == 1 && f[0] != "user") {
+				if f := w.ns.scan(ln); len(f) > 1 || (len(f) == 1 && f[0] != "user") {
 					s := string(ln)
 					if len(s) > 400 {
 						s = s[:400]
